@@ -351,6 +351,15 @@ fn data() -> impl Strategy<Value = Vec<u8>> {
         1 => prop::collection::vec(any::<u8>(), 0..64),
         1 => (1usize..17).prop_map(|k| (0..k * 1024).map(|i| (i % 251) as u8).collect()),
         1 => (63usize..67).prop_map(|k| (0..k * 1024 + 1).map(|i| (i % 249) as u8).collect()),
+        // multi-kilobyte VALID text whose multi-byte characters straddle every power-of-two offset for some shift
+        // (a reader that decodes chunk by chunk shows only there)
+        1 => (0usize..4, prop::sample::select(&[1usize, 4, 5, 8, 9, 17, 65][..])).prop_map(|(o, k)| {
+            let mut s = "x".repeat(o);
+            while s.len() < k * 1024 + 7 {
+                s.push_str("日é😀a");
+            }
+            s.into_bytes()
+        }),
     ]
 }
 
@@ -387,7 +396,7 @@ fn fop() -> impl Strategy<Value = FOp> {
 }
 
 pub fn run(c: &Ctx) {
-    c.set_rule("histories of 1..30 file operations (write_all, append_all, write_lines, append_line, append_lines, write()/append() handles with chunked writes and flushes, copy file->file and into a directory, move_p file->file and into a directory, copies and moves from a missing source (whatever they answer, no file's content may change), remove+recreate; write()/append() handles that stay open across later steps on other files and are flushed/dropped at arbitrary later points) over six file paths in two directories; data: empty, ASCII with newlines, multi-byte UTF-8, invalid UTF-8 / CR / NUL, random bytes, 1-16 KiB and 63-67 KiB blocks; lines incl. empty ones and ones carrying a terminator. After EVERY step every path is read back (read handle, read_all, read_lines; on Stdfs also std::fs::read) and compared with a byte-vector model: write replaces, append extends, helpers add one newline per line, untouched files unchanged, copies/moves do not alias; read_lines(write_lines(ls))==ls for proper lines. Both backends. Plus, on Stdfs, every program of length 5/6 over several append writers of one file (two append handles with write+flush, append_all, append_line): old content plus every chunk in call order after every step. Non-trivial = history with >=2 writes/appends to one file and a multi-byte or invalid-UTF-8 payload; distinct by history.");
+    c.set_rule("histories of 1..30 file operations (write_all, append_all, write_lines, append_line, append_lines, write()/append() handles with chunked writes and flushes, copy file->file and into a directory, move_p file->file and into a directory, copies and moves from a missing source (whatever they answer, no file's content may change), remove+recreate; write()/append() handles that stay open across later steps on other files and are flushed/dropped at arbitrary later points) over six file paths in two directories; data: empty, ASCII with newlines, multi-byte UTF-8, invalid UTF-8 / CR / NUL, random bytes, 1-16 KiB and 63-67 KiB blocks, 1-65 KiB of valid text made of 1-4 byte characters at every alignment; lines incl. empty ones and ones carrying a terminator. After EVERY step every path is read back (read handle, read_all, read_lines; on Stdfs also std::fs::read) and compared with a byte-vector model: write replaces, append extends, helpers add one newline per line, untouched files unchanged, copies/moves do not alias; read_lines(write_lines(ls))==ls for proper lines. Both backends. Plus, on Stdfs, every program of length 5/6 over several append writers of one file (two append handles with write+flush, append_all, append_line): old content plus every chunk in call order after every step. Non-trivial = history with >=2 writes/appends to one file and a multi-byte or invalid-UTF-8 payload; distinct by history.");
     c.assume("append_line(\"\") and write_lines/append_lines whose joined text is empty: no-op or newline form both admitted (deliberately skipped by both backends; outside the statement's round-trip clause)");
     // "an append adds at the end and never alters the existing prefix" with several writers on one Stdfs file
     crate::props::c07::run_append_interleave(c, c.tier.pick(5, 6));
